@@ -2,7 +2,7 @@
 
 Leg A: TLC explores spec/Resolve.tla: resolve() as a machine (ArgFile / ArgDir / ArgGlob with seen/result, then Sort)
        over a 13-entry universe (sizes at/over the limit, default- and user-excluded directories, .flowmarkignore,
-       symlinks to a file inside / outside / dangling / to a directory) x 64 settings x all argument lists up to the
+       symlinks to a file inside / outside / dangling / to a directory) x 96 settings x all argument lists up to the
        bound, against the declarative reading Must/May of the property: Complete, SoundK (known findings carved
        out by their triggers), OrderFree.
 Leg B: each point is materialised on disk; FileResolver.resolve(args), the reversed argument list, and (a subset)
@@ -65,7 +65,7 @@ def _observe(job):
         t = make_tree(root, st["toolign"])
         os.chdir(t)
         kw = dict(extend_include=["*.txt"] if st["extinc"] else [], exclude=["drafts/"] if st["excl"] else None,
-                  extend_exclude=["deep/"] if st["extexcl"] else [], force_exclude=st["force"],
+                  extend_exclude={"none": [], "base": ["deep/"], "path": ["sub/deep/"]}[st["extexcl"]], force_exclude=st["force"],
                   files_max_size=LIMIT if st["limit"] else 0)
 
         def resolve(a):
@@ -92,7 +92,7 @@ def _observe(job):
         if with_cli:
             from harness.props.c16 import run_cli
             argv = ["--list-files"] + (["--extend-include", "*.txt"] if st["extinc"] else []) + (["--exclude", "drafts/"] if st["excl"] else []) \
-                + (["--extend-exclude", "deep/"] if st["extexcl"] else []) + (["--force-exclude"] if st["force"] else []) \
+                + {"none": [], "base": ["--extend-exclude", "deep/"], "path": ["--extend-exclude", "sub/deep/"]}[st["extexcl"]] + (["--force-exclude"] if st["force"] else []) \
                 + ["--files-max-size", str(LIMIT if st["limit"] else 0)] + list(args)
             rc, out, err = run_cli(argv)
             cli_same = rc == 0 and [x for x in out.split("\n") if x] == paths
@@ -109,7 +109,7 @@ def _observe(job):
 def run(tier: str) -> int:
     chk = Check("C17", tier, "model_checking")
     maxargs = 2 if tier == "quick" else 3
-    chk.rule = (f"cases = every point of spec/Resolve.tla: 64 settings x every argument list of length <= {maxargs} over 12 arguments "
+    chk.rule = (f"cases = every point of spec/Resolve.tla: 96 settings x every argument list of length <= {maxargs} over 12 arguments "
                 "(directories, files in different spellings, globs, a symlinked directory) on a 13-entry tree; quick executes every "
                 "second point (seeded offset), thorough all; non-trivial = point whose Must set is non-empty and differs from the unfiltered tree")
     chk.assumptions = ["the universe is one rich tree (sizes at and over the limit, excluded dirs, ignore file, four kinds of symlink)",
